@@ -42,7 +42,7 @@ Definition c13_run (a : list Z) : list Z :=
     | RCond c None => [1; bz c]
     | RCond c (Some m) => [2; bz c] ++ m
     | RValueError => [3]
-    | RNotImplemented => [4]
+    | RRaise cls => [4; match catch_action cls with Some AStuck => 1 | _ => 0 end] ++ codes_of_string cls
     | RUnicodeError => [5]
     end
   end.
@@ -79,6 +79,7 @@ Definition c13_step (a : list Z) : list Z :=
                          Z.of_nat (List.length (ex_frames bool e'))]
       | Continues _ e' => [2; Z.of_nat (List.length (ex_path bool e')); bz (is_global_fail_set (top_ctx bool e'));
                            Z.of_nat (List.length (ex_frames bool e'))]
+      | _ => [0]
       end) (assert_step bool chk e c)
   | _ => []
   end.
@@ -93,8 +94,94 @@ Definition c13_assume_step (a : list Z) : list Z :=
       match o with
       | Yielded _ e' => [1; Z.of_nat (List.length (ex_path bool e')); 0; Z.of_nat (List.length (ex_frames bool e'))]
       | Continues _ e' => [2; Z.of_nat (List.length (ex_path bool e')); 0; Z.of_nat (List.length (ex_frames bool e'))]
+      | _ => [0]
       end) (assume_step bool (fun _ => negb (lf =? 0)) e c)
   | _ => []
+  end.
+
+(* [class name chars] -> what SEVM.run does with an exception of that class:
+   [0] escapes, [1] dropped, [2] frame error + finalize, [3] stuck + finalize, [4] yield without finalize *)
+Definition c13_catch (a : list Z) : list Z :=
+  match catch_action (string_of_codes a) with
+  | None | Some AOther => [0]
+  | Some ADrop => [1]
+  | Some AFrameError => [2]
+  | Some AStuck => [3]
+  | Some AFailYield => [4]
+  end.
+
+(* a sequence of cheatcode calls issued by one frame.
+   [depth; steps...], step = 0 :: check(cond) :: check(not cond) :: siglen :: sig chars ++ cdlen :: calldata
+                              (a vm.assert* overload; the handler halmos derives from the signature
+                               is run on the calldata: a raise becomes KRaise of that class)
+                          |  1 :: is_false(cond)       (vm.assume)
+   -> [9] when an exception escapes, else the outcomes, each as
+      [kind (1 yielded by FailCheatcode / 2 reaches the end / 3 stuck / 4 frame error); path length;
+       is_global_fail_set of the yielded context; number of frames] *)
+Inductive senc := SA (r1 r2 : Z) (sg : string) (cd : list Z) | SU (lf : Z).
+Fixpoint parse_steps (fuel : nat) (l : list Z) : list senc :=
+  match fuel with
+  | O => []
+  | S f =>
+    match l with
+    | 0 :: r1 :: r2 :: n :: rest =>
+      let sg := string_of_codes (firstn (Z.to_nat n) rest) in
+      match skipn (Z.to_nat n) rest with
+      | m :: rest' => SA r1 r2 sg (firstn (Z.to_nat m) rest') :: parse_steps f (skipn (Z.to_nat m) rest')
+      | [] => []
+      end
+    | 1 :: lf :: rest => SU lf :: parse_steps f rest
+    | _ => []
+    end
+  end.
+(* the k-th condition is `input = k`; the oracle recognises a condition (or its negation) by
+   probing it *)
+Fixpoint first_at (want : bool) (c : Z -> bool) (n : nat) (k : Z) : Z :=
+  match n with
+  | O => k
+  | S n' => if Bool.eqb (c k) want then k else first_at want c n' (k + 1)
+  end.
+Definition c13_seq (a : list Z) : list Z :=
+  match a with
+  | depth :: rest =>
+    let steps := parse_steps (List.length rest) rest in
+    let n := List.length steps in
+    let ident (c : cond Z) : bool * Z :=
+      if c (-1) then (true, first_at false c n 0) else (false, first_at true c n 0) in
+    let nthz (k : Z) := nth (Z.to_nat k) steps (SU 0) in
+    let chk : path Z -> cond Z -> sat_result := fun _ c =>
+      let '(neg, k) := ident c in
+      match nthz k with SA r1 r2 _ _ => dec_sat (if neg then r2 else r1) | SU _ => Unknown end in
+    let lf : cond Z -> bool := fun c =>
+      let '(_, k) := ident c in match nthz k with SU b => negb (b =? 0) | _ => false end in
+    let prog := map (fun ks : Z * senc =>
+      let '(k, st) := ks in
+      match st with
+      | SU _ => KAssume Z (fun i => i =? k)
+      | SA _ _ sg cd =>
+        match mk_assert_handler sg with
+        | None => KRaise Z "unbound"
+        | Some h => match hres_raises (run_handler h cd) with
+                    | Some cls => KRaise Z cls
+                    | None => KAssert Z (fun i => i =? k)
+                    end
+        end
+      end) (combine (map Z.of_nat (seq 0 n)) steps) in
+    let e := mkExec Z [] (repeat (Ctx ENone []) (S (Z.to_nat depth))) in
+    match run_prog Z chk lf e prog with
+    | None => [9]
+    | Some outs =>
+      flat_map (fun o =>
+        let enc kind e' := [kind; Z.of_nat (List.length (ex_path Z e')); bz (is_global_fail_set (top_ctx Z e'));
+                            Z.of_nat (List.length (ex_frames Z e'))] in
+        match o with
+        | Yielded _ e' => enc 1 e'
+        | Continues _ e' => enc 2 e'
+        | Stuck _ e' => enc 3 e'
+        | FrameError _ e' => enc 4 e'
+        end) outs
+    end
+  | [] => []
   end.
 
 Definition table : list (string * (list Z -> list Z)) :=
@@ -103,6 +190,8 @@ Definition table : list (string * (list Z -> list Z)) :=
     ("c13_spec"%string, c13_spec);
     ("c13_assume"%string, c13_assume);
     ("c13_step"%string, c13_step);
-    ("c13_assume_step"%string, c13_assume_step) ].
+    ("c13_assume_step"%string, c13_assume_step);
+    ("c13_catch"%string, c13_catch);
+    ("c13_seq"%string, c13_seq) ].
 
 Extraction "_build/C13/entries.ml" table.
